@@ -15,8 +15,8 @@ import vlib
 
 # point values beyond Locate.v (magnetics static / harmonic / axisymmetric, exterior regions, k(T)): PointVals.v, theorems in
 # Properties_C12_pointvalues.v, harness h_pv.cpp (props/xpv.py)
-EXTENSIONS = ["xpv"]
-EXTRA_PROPERTY_FILES = ["C12_pointvalues"]
+EXTENSIONS = ["xpv", "xsmooth"]
+EXTRA_PROPERTY_FILES = ["C12_pointvalues", "C12_smooth"]
 LEVEL = "proof"
 COQ_MODULES = ["Locate"]
 ASSUMPTIONS = [
